@@ -172,6 +172,7 @@ def main():
             import xcheck
             m2 = Model()
             xcheck.run_xcheck(run, m2)
+            xcheck.run_xcheck_text(run, m2)
             m2.close()
             if run.components.get("X-extraction", {}).get("diffs"):
                 run.broken.append("extraction cross-check: vm_compute and the extracted driver disagree")
